@@ -50,8 +50,11 @@ def pull_and_judge(params, ch, cfg, data, shape):
             viol.append({'msg': 'pull wrote %d bytes, device file has %d; first difference at %s' % (
                 len(got), len(data), next((i for i, (a, b) in enumerate(zip(got, data)) if a != b), min(len(got), len(data))))})
         if cb and r[0] == 'ok':
-            tot = sum(x[1] for x in s.cb_log)
-            if tot != len(data):
+            bad = [x[1] for x in s.cb_log if not isinstance(x[1], int) or isinstance(x[1], bool)]
+            tot = sum(x[1] for x in s.cb_log if isinstance(x[1], int))
+            if bad:
+                viol.append({'msg': 'progress callback received %r as a byte count' % (bad[:3],)})
+            elif tot != len(data):
                 viol.append({'msg': 'progress callback byte counts sum to %d, file size is %d' % (tot, len(data))})
         reqs = [q for q in s.env.sync_requests if q[1] == b'RECV']
         if reqs != [(reqs[0][0] if reqs else 0, b'RECV', b'/f')]:
